@@ -36,12 +36,18 @@ class World:
         self.sent = []
         self.snaps = {}
         self.created = []       # ids in creation order (as observed by the factory)
+        self.cache_hooks = {}   # agent_id -> one-shot behaviour of that agent's reset_cache() callback: {"do": "create", "type": t} | {"do": "raise"}
         self.errors = []
 
     def apply_op(self, model, op):
         """population operation through the repository's public API"""
         kind = op["op"]
-        if kind == "stop_run":
+        if kind == "hook":
+            # (harness only) the agent's documented reset_cache() callback gets a one-shot behaviour
+            self.cache_hooks[op["id"]] = {x: y for x, y in op.items() if x not in ("op", "id")}
+        elif kind == "reset_cache":
+            model.reset_cache()
+        elif kind == "stop_run":
             model.scheduler.running = False     # how a run is cancelled: the scheduler's public flag
         elif kind == "create":
             model.create_agent(op["type"], op.get("properties"))
@@ -102,6 +108,14 @@ class ScriptAgent(Agent):
             self.set_property("y", {"type": "Double", "value": 0.25 * self.id})
         if "label" not in self.properties:
             self.set_property("label", {"type": "String", "value": "agent%d" % self.id})
+
+    def reset_cache(self):
+        h = self.model.world.cache_hooks.pop(self.id, None)
+        if h is not None:
+            if h["do"] == "create":
+                self.model.create_agent(h["type"], None)
+            else:
+                raise RuntimeError("reset_cache callback of agent %d fails" % self.id)
 
     def _on_event(self, event):
         w = self.model.world
